@@ -28,6 +28,7 @@ from __future__ import print_function
 
 import logging
 import signal
+import threading
 import traceback
 
 from pprint import pformat
@@ -93,7 +94,11 @@ class datasource(PluginType):
     def invoke(self, broker):
         # Grab the timeout from the decorator, or use the default of 120.
 
-        if HostContext in broker:
+        # Signal handlers can only be installed from the main thread: when the
+        # graph is evaluated by a thread pool the alarm is not armed.
+        use_alarm = (HostContext in broker and
+                     isinstance(threading.current_thread(), threading._MainThread))
+        if use_alarm:
             self.timeout = getattr(self, "timeout", 120)
             signal.signal(signal.SIGALRM, self._handle_timeout)
             signal.alarm(self.timeout)
@@ -118,7 +123,7 @@ class datasource(PluginType):
                 broker.add_exception(reg_spec, te, te_tb)
             raise SkipComponent()
         finally:
-            if HostContext in broker:
+            if use_alarm:
                 signal.alarm(0)
 
 
